@@ -40,7 +40,7 @@ pub fn prop() -> Prop {
         stub: &["transport", "store", "glue", "random source", "tampering adversary"],
         independent: &["harness algebra for vk + G*r"],
         ref_sample: |_| 0,
-        required_probes: &["plain_twin_compared", "session_rerandomized", "seed_tamper_named", "commitment_tamper_named", "explicit_zero_randomizer", "explicit_randomizer", "cheater_under_randomization", "threshold_under_randomization", "taproot_rerandomized"],
+        required_probes: &["explicit_seeds", "plain_twin_compared", "session_rerandomized", "seed_tamper_named", "commitment_tamper_named", "explicit_zero_randomizer", "explicit_randomizer", "cheater_under_randomization", "threshold_under_randomization", "taproot_rerandomized"],
         prepare: None,
     }
 }
@@ -421,6 +421,30 @@ fn exec_c<C: Suite>(scen: &Scenario) -> Exec {
                 }
                 rep.probe("plain_twin_compared");
             }
+        }
+        // (e0) "for EVERY randomizer seed": seeds the library's own generator never makes - all zeroes, empty, one byte, 100 bytes,
+        // all 0xff - chosen by the coordinator and handed to the participants: both sides derive the same parameters, signing and
+        // aggregation succeed, the signature verifies under the randomised key
+        for (sname, seed) in [("32 zero bytes", vec![0u8; 32]), ("empty", vec![]), ("one zero byte", vec![0u8]), ("one byte", vec![7u8]), ("100 bytes", (0..100u8).collect::<Vec<u8>>()), ("32 x 0xff", vec![0xffu8; 32])] {
+            rep.evaluations += 2;
+            let p6 = match RandomizedParams::<C>::regenerate_from_seed_and_commitments(&vk, &seed, pkg.signing_commitments()) {
+                Ok(p) => p,
+                Err(e) => return Exec::Violation(viol("C17.explicit_seed_failed", format!("seed {sname}: the coordinator cannot derive parameters: {e:?}")), rep),
+            };
+            let sh6: Result<BTreeMap<Identifier<C>, SignatureShare<C>>, _> = members.iter().enumerate().map(|(j, kp)| C::w_rr_sign(&pkg, &nn[j], kp, &seed).map(|z| (*kp.identifier(), z))).collect();
+            let sh6 = match sh6 {
+                Ok(m) => m,
+                Err(e) => return Exec::Violation(viol("C17.explicit_seed_failed", format!("seed {sname}: a participant refuses to sign: {e:?}")), rep),
+            };
+            match C::w_rr_aggregate(&pkg, &sh6, pk, &p6) {
+                Ok(sig) => {
+                    if p6.randomized_verifying_key().verify(&msg, &sig).is_err() {
+                        return Exec::Violation(viol("C17.not_valid_under_randomized_key", format!("seed {sname}: signature does not verify under the randomised key")), rep);
+                    }
+                }
+                Err(e) => return Exec::Violation(viol("C17.explicit_seed_failed", format!("seed {sname}: aggregate = {e:?}")), rep),
+            }
+            rep.probe("explicit_seeds");
         }
         // (e) explicit randomisers through the deprecated entry point, zero included
         for which in ["zero", "random", "deprecated_new"] {
